@@ -149,11 +149,21 @@ impl Engine for VmEngine {
                 0 => rng.range(0, 40) as usize,
                 _ => 1000,
             };
-            ops.push(format!("vm run {} budget={budget}", module_tok(&m)));
-            if rng.chance(1, 2) {
+            if style == 7 {
+                // history: run / clear / run-and-compare-with-fresh
+                ops.push(format!("vm run {} budget={budget}", module_tok(&m)));
                 ops.push("vm clear".into());
+                ops.push("vm stats".into());
+                let m2 = gen_program(rng, &GenOpts { size, with_submodules: false });
+                ops.push(format!("vm runcheck {} budget=1000", module_tok(&m2)));
+                ops.push("vm clear".into());
+            } else {
+                ops.push(format!("vm run {} budget={budget}", module_tok(&m)));
+                if rng.chance(1, 2) {
+                    ops.push("vm clear".into());
+                }
+                ops.push("vm stats".into());
             }
-            ops.push("vm stats".into());
         }
         ops
     }
@@ -209,6 +219,24 @@ impl Engine for VmEngine {
                         }
                     },
                 },
+                ("runcheck", Some(vm)) => match parse_module(a[1]) {
+                    None => "bad-op".into(),
+                    Some(m) => match compile(m, None) {
+                        Err(e) => format!("compile-{}", show_cerr(&e)),
+                        Ok(prog) => {
+                            let budget = kv(&a, "budget", 1000) as u64;
+                            vm.max_instr = budget;
+                            vm.get_aux_mut().clear();
+                            let res = vm.run(&prog);
+                            let cur = show_outcome(vm, &prog, &res);
+                            let mut fresh = new_vm(cfg.0, cfg.1, cfg.2);
+                            fresh.max_instr = budget;
+                            let rf = fresh.run(&prog);
+                            let fr = show_outcome(&fresh, &prog, &rf);
+                            format!("cur={{{cur}}} fresh={{{fr}}}")
+                        }
+                    },
+                },
                 ("schedcheck", _) => match parse_module(a[1]) {
                     None => "bad-op".into(),
                     Some(m) => match compile(m, None) {
@@ -256,6 +284,11 @@ impl Engine for VmEngine {
     fn run_spec(&self, ops: &[String], impl_out: &[String]) -> Option<Vec<String>> {
         let mut out = vec![];
         for (o, r) in ops.iter().zip(impl_out.iter()) {
+            if r == "panic" || r == "crash" || r == "hang" {
+                // C04: errors are values, never crashes or hangs
+                out.push("an Ok or an execution error (no panic, abort or hang)".into());
+                continue;
+            }
             if o.starts_with("vm schedcheck") && r.starts_with("A={") {
                 let a = r.split("A={").nth(1).and_then(|x| x.split("} B={").next()).unwrap_or("");
                 let b = r.split("} B={").nth(1).and_then(|x| x.split("} gcs=").next()).unwrap_or("");
@@ -266,6 +299,17 @@ impl Engine for VmEngine {
                 } else {
                     out.push(format!("schedule-dependent outcome: without forced collections {{{a}}}"));
                 }
+            } else if o.starts_with("vm runcheck") && r.starts_with("cur={") {
+                // C17: after `clear` (or on a new VM) a run is indistinguishable from a run on a fresh VM
+                let cur = r.split("cur={").nth(1).and_then(|x| x.split("} fresh={").next()).unwrap_or("");
+                let fr = r.split("} fresh={").nth(1).map(|x| x.trim_end_matches('}')).unwrap_or("");
+                if cur == fr { out.push(r.clone()) } else { out.push(format!("differs from a fresh VM: fresh={{{fr}}}")) }
+            } else if o == "vm stats" && ops.iter().zip(impl_out.iter()).position(|(oo, _)| std::ptr::eq(oo, o)).map(|i| i > 0 && ops[i - 1] == "vm clear").unwrap_or(false) {
+                // C05 / C17: a cleared VM accounts for no memory and owns no objects
+                if r.starts_with("alloc=0 ") && r.ends_with(" frames=0 stack=0 objs=0") { out.push(r.clone()) } else { out.push("after clear: alloc=0 frames=0 stack=0 objs=0 expected".into()) }
+            } else if o.starts_with("vm run") && o.contains(" expect=ok") {
+                // C05: a program whose live data stays small must not run out of memory
+                if r.starts_with("ok ") { out.push("?".into()) } else { out.push("expected ok: the live data of this program is bounded".into()) }
             } else if o.starts_with("vm run") && r.contains(" disp=") {
                 let budget: u64 = o.split(' ').find_map(|x| x.strip_prefix("budget=")).and_then(|v| v.parse().ok()).unwrap_or(1000);
                 let disp: u64 = r.split(" disp=").nth(1).and_then(|x| x.split(' ').next()).and_then(|v| v.parse().ok()).unwrap_or(0);
